@@ -35,6 +35,7 @@ type V struct {
 	S    string
 	L    []*V // list elements, or map values (parallel to Keys)
 	Keys []string
+	T    *V // for a Link built by ref/graph: the value of the block it points to (not part of equality)
 }
 
 func MkNull() *V             { return &V{K: Null} }
